@@ -35,6 +35,13 @@ CHECKS = {
     'src/trajpoly3.c': ['C15'], 'src/trajpoly5.c': ['C15'], 'src/trajpoly7.c': ['C15'], 'src/poly.c': ['C15'], 'include/a/poly.h': ['C15'],
     'src/tf.c': ['C16'], 'include/a/lpf.h': ['C16'], 'include/a/hpf.h': ['C16'],
     'src/crc.c': ['C17'], 'src/hash.c': ['C17'],
+    # struct headers: C++ members (judged by the cxx configurations), initialiser macros, enums
+    'include/a/pid.h': ['C12'], 'include/a/pid_fuzzy.h': ['C13', 'C12'], 'include/a/pid_neuro.h': ['C12'], 'include/a/tf.h': ['C16'],
+    'include/a/trajbell.h': ['C14'], 'include/a/trajtrap.h': ['C14'],
+    'include/a/trajpoly3.h': ['C15'], 'include/a/trajpoly5.h': ['C15'], 'include/a/trajpoly7.h': ['C15'],
+    'include/a/mf.h': ['C13'],
+    # the Rust binding (not compiled by the repository's ctest suite, so every mutant reaches the check)
+    'src/lib.rs': ['C20'],
 }
 
 REL = [('<=', '<'), ('>=', '>'), ('<', '<='), ('>', '>='), ('==', '!='), ('!=', '==')]
@@ -124,13 +131,15 @@ def gen_mutants(path, text):
             add('incdec', op, rep, raw[:m.start(1)] + rep + raw[m.end(1):])
         # identifier swaps
         for a, b in SWAPS:
+            if path.endswith('.rs') and a in ('real', 'imag'):
+                continue  # `real` is the binding's scalar type name
             for m in re.finditer(r'(?<![A-Za-z0-9])' + re.escape(a) + r'(?![A-Za-z0-9])', code):
                 add('ident', a, b, raw[:m.start()] + b + raw[m.end():])
         # dropped statement: a simple call or assignment line
         st = code.strip()
         if st.endswith(';') and not re.match(r'^(return|break|continue|goto|else|case|default|typedef|static|const|unsigned|int|a_\w+ \**\w+( =|;)|[A-Za-z_]\w* \**\w+;)', st) \
                 and '{' not in st and '}' not in st and (re.match(r'^[\w\->.\[\]() *&+]+\s*(=|\+=|-=|\*=|/=|\|=|&=)[^=]', st) or re.match(r'^[\w]+\(.*\);$', st) or st.endswith('++;') or st.endswith('--;')):
-            add('drop', st[:40], '', re.match(r'^\s*', raw).group(0) + '(void)0; /* dropped */')
+            add('drop', st[:40], '', re.match(r'^\s*', raw).group(0) + ('(); /* dropped */' if path.endswith('.rs') else '(void)0; /* dropped */'))
     # de-duplicate
     seen, out = set(), []
     for m in muts:
